@@ -136,3 +136,87 @@ def sample_points(rng, desc, n):
         d = rng.choice([0.0, rng.uniform(0, 1.0e5), rng.uniform(0, 3.0e5), rng.uniform(0, 8.0e5)])
         pts.append((sx, sy, d))
     return pts
+
+
+MODEL_KINDS = ('temperature models', 'composition models', 'grains models', 'velocity models')
+
+
+def model_signature(desc):
+    """set of (feature type, model kind, model name) used anywhere in the file (feature, section and segment level)"""
+    sig = set()
+
+    def walk(o, ftype):
+        if isinstance(o, dict):
+            for k, v in o.items():
+                if k in MODEL_KINDS and isinstance(v, list):
+                    for m in v:
+                        if isinstance(m, dict) and 'model' in m:
+                            sig.add((ftype, k.split(' ')[0], m['model']))
+                elif isinstance(v, (dict, list)):
+                    walk(v, ftype)
+        elif isinstance(o, list):
+            for v in o:
+                walk(v, ftype)
+    for f in desc['doc'].get('features', []):
+        if isinstance(f, dict):
+            walk(f, f.get('model'))
+    return sig
+
+
+def covering_set(descs):
+    """greedy choice of files that together use every (feature type, kind, model) triple used by any of them"""
+    sigs = [(d, model_signature(d)) for d in descs]
+    todo = set()
+    for _d, s in sigs:
+        todo |= s
+    chosen = []
+    while todo:
+        d, s = max(sigs, key=lambda ds: len(ds[1] & todo))
+        if not (s & todo):
+            break
+        chosen.append(d)
+        todo -= s
+    return chosen
+
+
+def inside_points(flavour, name, descs, rng, n_candidates=400, n_inside=20, n_outside=5):
+    """per file: points preferring those that some feature owns (tag >= 0), spread over (tag, compositions present) buckets, found by a single threaded scan of candidates"""
+    from .common import ok, vals
+    cases = []
+    for k, d in enumerate(descs):
+        ctx = ctx_for(d)
+        c = core.Case('scan%d' % k)
+        c.add('world', 1, 1, 0, 0, '-', d['path'])
+        pts = sample_points(rng, d, n_candidates)
+        idx = []
+        for (sx, sy, dep) in pts:
+            x, y, z = ctx.point(sx, sy, dep)
+            idx.append(c.add('q3', 1, core.hx(x), core.hx(y), core.hx(z), core.hx(dep), core.props_str([(4, 0, 0)] + [(2, k, 0) for k in range(6)])))
+        cases.append((c, pts, idx))
+    core.run_cases(flavour, [c for c, _p, _i in cases], name, per_case_timeout=120)
+    out = []
+    for (c, pts, idx) in cases:
+        inside, outside = {}, []
+        if c.crash is None and c.results and c.results[0][0] == 'ok':
+            for p, i in zip(pts, idx):
+                r = c.results[i]
+                if ok(r) and vals(r)[0] >= 0:
+                    # bucket = owning feature and which compositions are present there: thin layers with their own models
+                    # (a hydrated crust, a smooth composition rim) get their own bucket and so their own share of the points
+                    v = vals(r)
+                    inside.setdefault((int(v[0]),) + tuple(abs(x) > 1e-12 for x in v[1:7]), []).append(p)
+                else:
+                    outside.append(p)
+        chosen = []
+        tags = sorted(inside)
+        while tags and len(chosen) < n_inside:
+            for t in list(tags):
+                if inside[t]:
+                    chosen.append(inside[t].pop())
+                else:
+                    tags.remove(t)
+                if len(chosen) >= n_inside:
+                    break
+        chosen += outside[:max(n_outside, n_inside + n_outside - len(chosen))]
+        out.append(chosen or pts[:n_inside + n_outside])
+    return out
